@@ -151,6 +151,9 @@ var uriPool = []uriT{
 	{"unparsable", "https://foo.{D}/{M}%zz", false},    // in (bad escape in path)
 	{"unparsable", " https://foo.{D}/{M}", false},      // in (leading space)
 	{"unparsable", "https://{E}\\@foo.{D}/{M}", false}, // browser: out
+	{"unparsable", "https://foo.{D}\\@{E}/{M}", false}, // RFC 3986: userinfo "foo.D\", host E -> out (a reader that turns "\" into "/" sees foo.D)
+	{"unparsable", "https://{D}\\@{E}:443/{M}?x=1", false},
+	{"unparsable", "//foo.{D}\\@{E}/{M}", false},
 	{"unparsable", "https://foo.{D}\t.{E}/{M}", false}, // browser: out
 	{"unparsable", "https://foo.{D}\n@{E}/{M}", false}, // out
 	{"unparsable", "https://{E}/{M}\x7f", false},       // out
